@@ -815,6 +815,11 @@ pub fn run_property(prop: &Property, cfg: &Cfg) -> i32 {
             }
         }
     }
+    if let Ok(text) = std::env::var("VERIF_FUZZ_STATS") {
+        if let Ok(v) = serde_json::from_str::<Value>(&text) {
+            evidence["coverage"]["libfuzzer_campaign"] = v;
+        }
+    }
     let evdir = verif_root().join("evidence");
     let _ = std::fs::create_dir_all(&evdir);
     let suffix = if cfg!(feature = "chrono") { ".chrono" } else { "" };
